@@ -83,6 +83,17 @@ fn noise_run(g: &TestGraph, c: &Case, rng: &mut SplitMix64) -> bool {
 /// Like [`exec_case`]; with `noise = Some(seed)` an unrelated request is run on the same graph
 /// instance before every recorded run (C25: a run must not affect later runs).
 pub fn exec_case_noise(c: &Case, noise: Option<u64>) -> (String, String) {
+    exec_case_full(c, noise, None)
+}
+
+/// `wrap`: build the Coq term from (plan, plan_noip, runs) instead of printing the whole graph
+/// (compact, repeat-encoded terms for the long fan-out plans).
+pub fn exec_case_full(
+    c: &Case,
+    noise: Option<u64>,
+    wrap: Option<&dyn Fn(&str, &str, &str) -> String>,
+) -> (String, String) {
+    let compact = wrap.is_some();
     let mut noise_rng = noise.map(SplitMix64);
     let g = TestGraph::build(&c.spec, false);
     let g_noip = TestGraph::build(&c.spec, true);
@@ -124,31 +135,36 @@ pub fn exec_case_noise(c: &Case, noise: Option<u64>) -> (String, String) {
         .map(|((r, o), k)| {
             format!(
                 "(Build_run_obs {} {} {} {} r{} {} {} {})",
-                coq_list(&r.owned), r.pool, r.noip, r.threads, k, coq_trace(&o.trace), o.borrowed_ok, o.consts_ok
+                coq_list(&r.owned), r.pool, r.noip, r.threads, k,
+                if compact { coq_trace_rle(&o.trace) } else { coq_trace(&o.trace) },
+                o.borrowed_ok, o.consts_ok
             )
         })
         .collect();
     let lets: String =
         table.iter().enumerate().map(|(k, t)| format!("let r{} := {} in ", k, t.coq())).collect();
-    let ins: Vec<String> = c.ins.iter().map(|(i, d)| format!("({}, {})", i, d.coq())).collect();
-    let term = format!(
-        "({}{{| c_graph := {}; c_ops := {}; c_consts := {}; c_ins := {}; c_outs := {}; c_plan := {}; c_plan_noip := {}; c_runs := {} |}})",
-        lets,
-        coq_graph(&c.spec),
-        coq_ops(&c.spec),
-        coq_consts(&c.consts),
-        coq_cons(&ins),
-        coq_list(&c.outs),
-        match &plan {
-            Some(p) => format!("(Some {})", coq_list(p)),
-            None => "None".to_string(),
-        },
-        match &plan_noip {
-            Some(p) => format!("(Some {})", coq_list(p)),
-            None => "None".to_string(),
-        },
-        coq_cons(&runs)
-    );
+    let coq_plan = |p: &Option<Vec<u32>>| match p {
+        Some(p) => format!("(Some {})", if compact { coq_ids_rle(p) } else { coq_list(p) }),
+        None => "None".to_string(),
+    };
+    let term = match wrap {
+        Some(f) => format!("({}{})", lets, f(&coq_plan(&plan), &coq_plan(&plan_noip), &coq_cons(&runs))),
+        None => {
+            let ins: Vec<String> = c.ins.iter().map(|(i, d)| format!("({}, {})", i, d.coq())).collect();
+            format!(
+                "({}{{| c_graph := {}; c_ops := {}; c_consts := {}; c_ins := {}; c_outs := {}; c_plan := {}; c_plan_noip := {}; c_runs := {} |}})",
+                lets,
+                coq_graph(&c.spec),
+                coq_ops(&c.spec),
+                coq_consts(&c.consts),
+                coq_cons(&ins),
+                coq_list(&c.outs),
+                coq_plan(&plan),
+                coq_plan(&plan_noip),
+                coq_cons(&runs)
+            )
+        }
+    };
     // tag: what the case exercised
     let any_ip = outs.iter().any(|o| o.trace.iter().any(|e| !e.in_place.is_empty()));
     let any_reuse = outs.iter().any(|o| o.trace.iter().any(|e| e.reused));
